@@ -87,8 +87,10 @@ def parseGoErr (s : String) : Option (Option GoErr) :=
   else if s == "canceled" then some (some .canceled)
   else if s == "deadline" then some (some .deadline)
   else if s.startsWith "plain:" then (hexArg' (s.drop 6).toString).map fun t => some (.plain t)
-  else if s.startsWith "coded:" then
-    match ((s.drop 6).toString).splitOn "@" with
+  else if s.startsWith "coded:" || s.startsWith "codedctx:" || s.startsWith "codedwrap:" then
+    -- codedctx: the coded error's cause is a context error; codedwrap: the coded error is wrapped
+    -- once more (`errors.As` finds it): the model's handler sees the same coded error in all cases
+    match ((s.drop ((s.splitOn ":").head!.length + 1)).toString).splitOn "@" with
     | [e, m] => match parseWireErr e, parseHeader m with
       | some w, some mh => some (some (.coded { code := w.code, msg := w.msg, details := w.details, md := mh }))
       | _, _ => none
@@ -183,7 +185,8 @@ def hreqOp (args : List String) : String :=
   | some proto, some kind, some max, some sent, some tmo, some flat, some tail =>
     let p := parseProto' proto
     let reg : List Bytes := [Gen.compressionGzip, "rle".toUTF8.toList]
-    match preCheck p reg sent [] tmo with
+    let acc : Bytes := ((kv' args "acc").bind hexArg').getD []
+    match preCheck p reg sent acc tmo with
     | .reject code => if kind == "unary" then s!"norun:{code}" else s!"pre=reject:{code}"
     | .run hasPool =>
       let cfg : ReaderCfg Bytes := { codec := rawCodec, pool := if hasPool then some rleCompressor else none, max := max }
